@@ -565,6 +565,14 @@ class Executor:
             return k(st)
         if isinstance(n, (ast.Import, ast.ImportFrom)):
             return k(st)
+        if isinstance(n, ast.With):
+            # `with E as x: body` - the context expression is evaluated, bound, the body executed; leaving the block is the
+            # context manager's business (closing a file / an archive) and has no effect the contracts track
+            for item in n.items:
+                v = ev.eval(item.context_expr)
+                if item.optional_vars is not None:
+                    self._assign(st, item.optional_vars, v, n)
+            return self._exec_block(n.body, st, k)
         if isinstance(n, ast.Assign):
             v = ev.eval(n.value)
             for t in n.targets:
@@ -650,6 +658,11 @@ class Executor:
             raise
 
     def _branch(self, st, c, kt, kf):
+        th = self.contract.handlers.get("truthiness")
+        if th is not None and not isinstance(c, bool) and not (is_z3(c) and z3.is_bool(c)):
+            r = th(self, st, c)  # Python truthiness of a contract-side value (None-or-object arguments, strings)
+            if r is not NotImplemented:
+                c = r
         c = simp(Zb(c))
         if c is True:
             return kt(st)
